@@ -539,3 +539,31 @@ Definition check_std_case (c : atom * (list nat * list atom) * positive * std_ob
       | _, _ => false
       end
   end.
+
+(** the python signatures the tie lemmas (which bind arguments in this order: positional, keyword-only, *args, **kws) and the
+    callers inside the layer (which pass these keywords) rely on *)
+Definition model_signatures : list (string * list string) :=
+  [("apply_operation", ["a"; "b"; "operator_name"; "reverse"]);
+   ("weighted_value", ["self"]);
+   ("filled", ["self"; "fill_value"]);
+   ("valued", ["self"; "value"]);
+   ("map", ["self"; "func"; "*args"; "fill_value"; "**kws"]);
+   ("map_both", ["self"; "func"; "*args"; "fill_value"; "**kws"]);
+   ("index_put", ["self"; "indices"; "values"; "*"; "accumulate"]);
+   ("wsum", ["self"; "*"; "fill_value"; "**kws"]);
+   ("sum", ["self"; "*"; "fill_value"; "**kws"]);
+   ("view", ["self"; "*shape"]);
+   ("expand", ["self"; "*shape"]);
+   ("get_filled_value_and_weight", ["t"; "*"; "fill_value"]);
+   ("neg", ["self"]);
+   ("abs_dunder", ["self"]);
+   ("abs", ["self"]);
+   ("pow", ["self"; "exponent"]);
+   ("get_dim", ["x"; "*"; "dim"; "but_dim"]);
+   ("sum_dim", ["x"; "*"; "fill_value"; "dim"; "but_dim"; "**kws"]);
+   ("wsum_dim", ["x"; "*"; "fill_value"; "dim"; "but_dim"; "**kws"]);
+   ("wsum_dim_return_weighted_sum_only", ["x"; "*"; "fill_value"; "dim"; "but_dim"; "**kws"]);
+   ("wsum_dim_return_sum_of_weights_only", ["x"; "*"; "fill_value"; "dim"; "but_dim"; "**kws"]);
+   ("unsqueeze_right", ["t"; "*"; "ndim"]);
+   ("compute_std_from_variance", ["variance"; "varname"; "tol"]);
+   ("factory", ["x"; "*args"; "**kws"])]%string.
